@@ -120,8 +120,16 @@ class JaxleySolveIndexer:
         parents_in_level: Optional[np.ndarray] = None,
         root_inds: Optional[np.ndarray] = None,
         remapped_node_indices: Optional[np.ndarray] = None,
+        ncomp_per_branch: Optional[np.ndarray] = None,
     ):
         self.cumsum_ncomp = np.asarray(cumsum_ncomp)
+        # `cumsum_ncomp` can be padded (see `remap_index_to_masked`). The actual
+        # number of compartments per branch is needed to find the last compartment.
+        self.ncomp_per_branch = (
+            np.diff(self.cumsum_ncomp)
+            if ncomp_per_branch is None
+            else np.asarray(ncomp_per_branch)
+        )
 
         # Save items for easier access.
         self.branchpoint_group_inds = branchpoint_group_inds
@@ -136,12 +144,16 @@ class JaxleySolveIndexer:
 
     def last(self, branch_inds: np.ndarray) -> np.ndarray:
         """Return the indices of the last compartment of all `branch_inds`."""
-        return self.cumsum_ncomp[branch_inds + 1] - 1
+        return self.cumsum_ncomp[branch_inds] + self.ncomp_per_branch[branch_inds] - 1
+
+    def _end_of_block(self, branch_inds: np.ndarray) -> np.ndarray:
+        """Return the index after the (possibly padded) block of all `branch_inds`."""
+        return self.cumsum_ncomp[branch_inds + 1]
 
     def branch(self, branch_inds: np.ndarray) -> np.ndarray:
         """Return indices of all compartments in all `branch_inds`."""
         start_inds = self.first(branch_inds)
-        end_inds = self.last(branch_inds) + 1
+        end_inds = self._end_of_block(branch_inds)
         return self._consecutive_indices(start_inds, end_inds)
 
     def lower(self, branch_inds: np.ndarray) -> np.ndarray:
@@ -151,7 +163,7 @@ class JaxleySolveIndexer:
         to have as many elements as the `diagonal`. In this method, we get rid of
         this additional element."""
         start_inds = self.first(branch_inds) + 1
-        end_inds = self.last(branch_inds) + 1
+        end_inds = self._end_of_block(branch_inds)
         return self._consecutive_indices(start_inds, end_inds)
 
     def upper(self, branch_inds: np.ndarray) -> np.ndarray:
@@ -161,7 +173,7 @@ class JaxleySolveIndexer:
         to have as many elements as the `diagonal`. In this method, we get rid of
         this additional element."""
         start_inds = self.first(branch_inds)
-        end_inds = self.last(branch_inds)
+        end_inds = self._end_of_block(branch_inds) - 1
         return self._consecutive_indices(start_inds, end_inds)
 
     def _consecutive_indices(
